@@ -20,6 +20,29 @@ spec fn rp_spec(a: Associativity) -> int { match a { Associativity::Left(x) => 2
 """,
     "result": "",
     "repcfg": "",
+    # Rich::merge: the field types the contract does not speak about are opaque; the callee flat_merge is an
+    # assumed external function WITHOUT a contract (its result is unconstrained)
+    "rich_merge": """
+#[verifier::external_body]
+#[verifier::accept_recursive_types(T)]
+pub struct RichPattern<'a, T> { _p: core::marker::PhantomData<&'a T> }
+#[verifier::external_body]
+#[verifier::accept_recursive_types(T)]
+pub struct MaybeRef<'a, T> { _p: core::marker::PhantomData<&'a T> }
+impl<'a, T> RichReason<'a, T> {
+    #[verifier::external_body]
+    fn flat_merge(self, other: Self) -> Self { unimplemented!() }
+}
+""",
+}
+# per unit: the impl header to use instead of the real one, and edits to the extracted type definitions
+# (each stated in the evidence): only where Verus cannot ingest the real header
+OVERRIDES = {
+    "rich_merge": {
+        "impl_header": "impl<'a, T, S> Rich<'a, T, S> {",
+        "type_edits": [(r"<'a, T, S = SimpleSpan<usize>>", "<'a, T, S>")],
+        "note": "impl header `impl<'a, I: Input<'a>> Error<'a, I> for Rich<'a, I::Token, I::Span> where I::Token: PartialEq` replaced by the inherent `impl<'a, T, S> Rich<'a, T, S>` (Verus cannot ingest the Input trait - GAT front-end crash; the body does not use the bounds); the default of Rich's span parameter dropped; RichPattern / MaybeRef opaque; RichReason::flat_merge an assumed external function without contract; the body of merge is byte-for-byte the repository's",
+    },
 }
 TARGETS = {
     # unit: (file, [type header regexes], impl header regex, {fn: contract}, properties)
@@ -35,6 +58,11 @@ TARGETS = {
         "into_output_errors": "        ensures r.0 == self.output, r.1@ == self.errs@,",
         "into_result": "        ensures r.is_ok() == (self.errs@.len() == 0 && self.output.is_some()),\n            match r { Ok(v) => Some(v) == self.output, Err(e) => e@ == self.errs@ },",
     }, ["C03"]),
+    "rich_merge": ("src/error.rs", [r"^pub enum RichReason<'a, T> \{", r"^pub struct Rich<'a, T, S = SimpleSpan<usize>> \{"], r"^impl<'a, I: Input<'a>> Error<'a, I> for Rich<'a, I::Token, I::Span>", {
+        # C06: "Cheap, Simple and Rich report the same span": a merge at equal positions keeps the span (and the
+        # context) of the pending error, as the default `Error::merge` of Cheap and Simple does (Kani: err_plain_b1)
+        "merge": "        ensures r.span == self.span,",
+    }, ["C06"]),
     "repcfg": ("src/combinator.rs", [r"^pub struct RepeatedCfg \{"], r"^impl RepeatedCfg \{", {
         "at_least": "        ensures r.at_least == Some(n), r.at_most == self.at_most,",
         "at_most": "        ensures r.at_most == Some(n), r.at_least == self.at_least,",
@@ -60,12 +88,16 @@ def build_unit(unit, repo):
     file, type_res, impl_re, fns, _ = TARGETS[unit]
     src = open(os.path.join(repo, file), errors="replace").read()
     parts, where = [], []
+    ov = OVERRIDES.get(unit, {})
     for tr in type_res:
         text, line, _ = extract.cut_item(src, tr)
-        parts.append(extract.strip_attrs_docs_vis(text))
+        text = extract.strip_attrs_docs_vis(text)
+        for pat, rep in ov.get("type_edits", []):
+            text = re.sub(pat, rep, text)
+        parts.append(text)
         where.append(f"{file}:{line}")
     impl_text, impl_line, _ = extract.cut_item(src, impl_re)
-    header = impl_text[:impl_text.index("{") + 1]
+    header = ov.get("impl_header") or impl_text[:impl_text.index("{") + 1]
     body = []
     for fn, contract in fns.items():
         sig, fbody, off = extract.cut_fn(impl_text, fn)
@@ -117,7 +149,7 @@ def run(pid, tier, repo, work):
             continue
         path = os.path.join(vwork, f"extracted_{unit}.rs")
         open(path, "w").write(text)
-        out["extraction"].append({"unit": unit, "from": where, "file": path, "dropped": "attributes, doc comments, visibility; result named (r: T); contract spliced between signature and body; a by-value `mut self` receiver desugared to `self` + `let mut self_ = self;` with `self` renamed in the body"})
+        out["extraction"].append({"unit": unit, "from": where, "file": path, "dropped": "attributes, doc comments, visibility; result named (r: T); contract spliced between signature and body; a by-value `mut self` receiver desugared to `self` + `let mut self_ = self;` with `self` renamed in the body" + ("; " + OVERRIDES[unit]["note"] if unit in OVERRIDES else "")})
         rc, res, err, dt = run_verus(path, vwork)
         out["time_s"] += dt
         vr = (res or {}).get("verification-results", {})
